@@ -572,6 +572,28 @@ def streams(ctx):
                 describe="all %d ordered pairs of %d valid strings (length <= 3 over the alphabet + boundary scalars) and %d random valid "
                          "pairs (equal / prefix / common-prefix / unrelated): ==, != against &str, str, String, ByteString; cmp, "
                          "partial_cmp, <, <=, >, >= against str" % (len(base) ** 2, len(base), npair))
+    # ---- c20q: comparisons among values that share a buffer ----
+    def why_c20q(case, impl):
+        """== and cmp of the halves of split_at / slice_ref prefixes and suffixes against the whole must be what str gives"""
+        b = bytes.fromhex(case)
+        if impl == "INVALID":
+            return None if not py_valid(b) else "no-trace"
+        ents = [e for e in impl.split(",") if e]
+        bounds = [m for m in range(len(b) + 1) if py_boundary(b, m)]
+        if len(ents) != len(bounds):
+            return "no-trace"
+        for m, e in zip(bounds, ents):
+            l, r = b[:m], b[m:]
+            o = lambda u, v: "L" if u < v else ("G" if u > v else "E")
+            want = "%d:%d%d%d%d%d%d%d%d%s%s" % (m, l == b, b == l, l == b, r == b, 1, 1, l == b, 1, o(l, b), o(r, b))
+            if e != want:
+                return "shared-eq"
+        return None
+    qs = list(small) + extra + [rand_valid(rng, 12).hex() for _ in range(3000 if quick else 100000)]
+    mon, key = mk(why_c20q)
+    s4q = Stream("c20q", "c20q", qs, monitor=mon, finding_key=key, nontrivial=lambda c, m: len(c) >= 4, shrink=shrink_hex,
+                 describe="%d valid strings: for every char boundary, ==/cmp between the halves of split_at, slice_ref prefixes/suffixes "
+                          "and the whole (values that share one buffer)" % len(qs))
     # ---- c20s: construction sequences ----
     ns = 30000 if quick else 1000000
     scripts = [gen_script(rng, rng.randint(6, 14)) for _ in range(ns)]
@@ -583,7 +605,7 @@ def streams(ctx):
                 describe="%d random construction sequences of 6..14 safe-API calls over a pool of ByteStrings that share buffers "
                          "(try_from on shared Bytes sub-slices, split_at, slice_ref with subsets of the same / a parent / a foreign "
                          "buffer, From kinds on sub-slices, clone)" % ns)
-    out = [s1, s1r, s2, s3, s4, s5]
+    out = [s1, s1r, s2, s3, s4, s4q, s5]
     if not quick:
         # thorough only: all strings of length 6 over a reduced alphabet (1-, 2-, 3-byte fragments, the surrogate lead)
         a8 = ["41", "c3", "a9", "e2", "82", "ac", "ed", "a0"]
